@@ -116,7 +116,7 @@ def diff_c01(program: dict, po=None, so=None) -> list[dict]:
                 continue
             diffs.append(dict(kind="sqlite_only_error", stmt=st["id"], op=st["op"], exc=b["exc"], msg=b["msg"]))
             continue
-        if st["op"] == "export":
+        if st["op"] == "export" and not program.get("backend_dependent"):
             d = compare_frames(a["frame"], b["frame"], bool(st.get("ordered")))
             if d:
                 dclass = "names" if d.startswith("names") else "rowcount" if d.startswith("row counts") else "cell"
